@@ -20,7 +20,6 @@ from core import f2h, h2f
 TOLK = 2e-3          # the property's tolerance factor (portal tolerance): k * L
 GAPK = 1e-3          # pairs with gap >= GAPK * L must be reported as not intersecting
 CORR = 1e-9          # correspondence allowance (F mode), times scale
-F_EDGE = "F-mpr-edge-region-direction"
 
 RULE = ("one case = one collider pair (types sphere/ellipsoid/capsule/cylinder/cone/box/disk/ellipse/hull/mesh) with "
         "concrete poses and sizes from one PRNG; streams: lattice (axis-aligned / signed-permutation poses, dyadic sizes "
@@ -33,10 +32,61 @@ EXPLANATION = ("the theorems are about the Lean model of _find_penetration_info/
                "recorded inputs of those very functions to the model (one step each, 1e-9*scale) and re-runs whole "
                "mpr_penetration calls in the model with the support answers taken from the trace; the oracle checks the "
                "property itself on the real code with rigorous two-sided bounds of the penetration depth")
-PARTIAL = {}
-ASSUMPTIONS = []
-TRUSTED = []
-MANIFEST = dict(text="", note="", technique="", design="§7 C08")
+PARTIAL = {
+    "iteration_cap_exit": "exit 1 of _find_penetration_info (iterations > max_iterations): no accuracy statement is proved "
+                          "for it (depth_ge_true_minus_tol / residual_le_tol assume i.exit = 0); depth_nonneg, "
+                          "direction_unit_or_zero, contact_bary do cover it",
+    "degenerate_portal": "final portal triangle of zero area (norm_vector returns the zero vector, _portal_reach_tolerance "
+                         "is then trivially true): the accuracy theorems assume Nondegenerate i.portal; reachable through "
+                         "the view-swap (_swap_vertices copies row 2 into row 1) together with the iteration cap of "
+                         "_discover_portal, seen only with max_iterations <= 3",
+    "origin_in_portal_tetrahedron": "that the barycentric weights of _contact_position are non-negative (the origin stays "
+                                    "inside the tetrahedron v0 v1 v2 v3 through _refine_portal/_find_penetration_info) is a "
+                                    "hypothesis of contact_exact_of_nonneg_weights, not proved — and false for exactly "
+                                    "touching pairs and other exact ties of _expand_portal (finding F-mpr-expand-tie-contact); contact_bary gives only: midpoint "
+                                    "of two pre-images, half their distance from both, pre-images in A and B where the "
+                                    "weights are non-negative",
+    "contact_point_in_both_sets": "not a theorem of the unchanged code: segment_contact_asIs_counterexample proves the "
+                                  "ORIGIN_ON_V0V1_SEGMENT exit reports a contact position outside collider 2 "
+                                  "(finding F-mpr-segment-contact); proved instead: within depth/2 of both "
+                                  "(touch_and_segment_cases), exactly in both for ORIGIN_ON_V1",
+    "portal_invariant_across_view_swap": "only the row invariant (every row 1..3 is a support row a-b with a in A, b in B) "
+                                         "is proved across _swap_vertices-as-it-behaves (discoverPortal_spec); that the "
+                                         "origin ray passes through the portal is not proved (not needed by the depth / "
+                                         "residual theorems, which rest on the support plane only)",
+    "refine_portal_termination": "_refine_portal is `while True` without a cap; the model takes fuel and the theorems are "
+                                 "stated for runs that return (.ok); fuel sufficiency is proved only for the capped "
+                                 "_find_penetration_info (find_penetration_info_terminates)",
+    "edge_vertex_region_direction": "face_region_direction (direction = +-portal normal) is for point_to_triangle region 6 "
+                                    "only; in edge/vertex regions the direction is not the normal — residual_le_tol and "
+                                    "depth_ge_true_minus_tol nevertheless hold there (proved for every region)",
+}
+ASSUMPTIONS = [
+    "S2: the colliders enter through an abstract support oracle satisfying the C03 contract SupOK (support point of A along "
+    "d, of B along -d, for every d) and through centres with c1 in A, c2 in B; convexity of A and B only where stated",
+    "exact real arithmetic: rounding is not modelled; the 2e-3*L of the property is met by mpr_tolerance + 2*EPSILON "
+    "(regenerated constants) with a factor 20 to spare, which is the allowance for rounding",
+    "`x == 0.0` is modelled as isZero (IEEE); NaN inputs are outside the domain",
+]
+TRUSTED = ["mpr.py is modelled in full except mpr_intersection (C02); of minkowski.py support_function/make_support_point; of "
+           "distance/_triangle.py point_to_triangle; utils.norm_vector",
+           "oracle of the search: scipy.spatial.ConvexHull (Qhull) for the inner-polytope lower bound of the depth; own "
+           "closed-form support mappings of the ten collider types (checked against the library's on every traced run)"]
+MANIFEST = dict(
+    text=("Lean theorems on the faithful model of mpr_penetration with abstract support oracles (all convex sets, all "
+          "iterations): depth_nonneg, direction_unit_or_zero, depth_ge_true_minus_tol and residual_le_tol for the tolerance "
+          "exit in every Voronoi region of the closest point (bounds mpr_tolerance + 2*EPSILON from the regenerated "
+          "constants, below 2e-3*L), face_region_direction, touch_and_segment_cases, contact_bary, "
+          "contact_exact_of_nonneg_weights, find_penetration_info_terminates, and segment_contact_asIs_counterexample (the "
+          "unchanged code reports a contact position outside a collider); the model is compared step-wise with every "
+          "module-level function of distance3d.mpr on recorded traces and end-to-end with trace-fed supports; rigorous "
+          "two-sided depth oracle on the real code."),
+    note=("trusted: Lean kernel + Mathlib, axioms propext/Classical.choice/Quot.sound; exact-real semantics; support "
+          "oracle contract (C03) assumed; partial: iteration-cap exit, degenerate final portal, non-negativity of the "
+          "barycentric weights, termination of the uncapped _refine_portal; two known findings on the contact position."),
+    technique="Lean 4 proof (S2, abstract support oracle) on hand-written model + step-wise trace correspondence",
+    design="§7 C08")
+LEAN_TARGETS = []
 
 
 # =============================================================================== geometry (own code)
@@ -503,10 +553,30 @@ def gen_scene(rng, stream, kinds=None, placement=None):
 
 
 # =============================================================================== the property oracle
+class time_limit:
+    """watchdog: _refine_portal is `while True` — an edited tree may not come back"""
+
+    def __init__(self, seconds=10.0):
+        self.seconds = seconds
+
+    def __enter__(self):
+        import signal
+
+        def handler(signum, frame):
+            raise TimeoutError("mpr_penetration did not return within %gs" % self.seconds)
+        self.old = signal.signal(signal.SIGALRM, handler)
+        signal.setitimer(signal.ITIMER_REAL, self.seconds)
+
+    def __exit__(self, *a):
+        import signal
+        signal.setitimer(signal.ITIMER_REAL, 0)
+        signal.signal(signal.SIGALRM, self.old)
+
+
 def run_mpr(sa, sb, **kw):
     from distance3d import mpr
     c1, c2 = make_collider(sa), make_collider(sb)
-    with np.errstate(all="ignore"):
+    with np.errstate(all="ignore"), time_limit():
         res = mpr.mpr_penetration(c1, c2, **kw)
     return res
 
@@ -637,7 +707,7 @@ class Trace:
 def traced_mpr(sa, sb, **kw):
     from distance3d import mpr
     c1, c2 = make_collider(sa), make_collider(sb)
-    with Trace() as tr, np.errstate(all="ignore"):
+    with Trace() as tr, np.errstate(all="ignore"), time_limit():
         res = mpr.mpr_penetration(c1, c2, **kw)
     return res, tr.calls
 
@@ -768,20 +838,34 @@ class Steps:
         self.ties = 0
         self.n = 0
 
+    COMPOSITE = ("C08.penetration_info", "C08.find_info", "C08.pen")
+
     def add(self, fn, toks, check, seed):
         cid = self.drv.add(fn, "F", toks)
-        self.plan.append((cid, fn, check, seed))
+        self.plan.append((cid, fn, check, seed, self.group))
+
+    group = 0
 
     def finish(self):
+        """A leaf step whose decisive quantity sits within rounding of its threshold is a *tie*
+        (model-Float and numpy may legitimately take different sides); the composite cases
+        (_penetration_info, _find_penetration_info, whole run) of a scene with a leaf tie are then
+        only counted, not compared."""
         out = self.drv.run()
-        for cid, fn, check, seed in self.plan:
+        msgs = []
+        tie_groups = set()
+        for cid, fn, check, seed, group in self.plan:
             r = Rd(out.get(cid))
             self.n += 1
             try:
                 msg = check(r)
             except Exception as e:  # noqa
                 msg = "cannot parse model answer %r (%r)" % (out.get(cid, "")[:200], e)
-            if msg == "tie":
+            if msg == "tie" and fn not in self.COMPOSITE:
+                tie_groups.add(group)
+            msgs.append(msg)
+        for (cid, fn, check, seed, group), msg in zip(self.plan, msgs):
+            if msg == "tie" or (msg and fn in self.COMPOSITE and group in tie_groups):
                 self.ties += 1
             elif msg:
                 self.ctx.broke("correspondence", fn, msg, seed)
@@ -805,9 +889,14 @@ def rows_equal(a, b):
 def add_steps(st, scene, calls, res, kw):
     """one driver case per recorded call of a modelled function"""
     ctx = st.ctx
-    seed = {"scene": {"a": scene["a"], "b": scene["b"]}, "kw": kw}
-    c1 = make_collider(scene["a"]).center()
-    c2 = make_collider(scene["b"]).center()
+    st.group += 1
+    if scene is None:
+        seed = {"direct_call_records": len(calls)}
+        c1 = c2 = np.zeros(3)
+    else:
+        seed = {"scene": {"a": scene["a"], "b": scene["b"]}, "kw": kw}
+        c1 = make_collider(scene["a"]).center()
+        c2 = make_collider(scene["b"]).center()
     tol_default = kw.get("mpr_tolerance", 1e-4)
     max_it = kw.get("max_iterations", 100)
 
@@ -880,8 +969,8 @@ def add_steps(st, scene, calls, res, kw):
                 val = r.f()
                 d = r.v3()
                 p1, p2 = r.sp(), r.sp()
-                impl_sw = int(not rows_equal(v[1], va[1]) or bool(np.dot(c["out"], v[0]) < 0 and np.any(v[0] != 0)))
-                impl_sw = int(bool(np.dot(-c["out"], v[0]) > 0)) if rows_equal(v[1], va[1]) else 1
+                dd = unit(np.cross(v[1] - v[0], v[2] - v[0]))
+                impl_sw = 1 if not rows_equal(v[1], va[1]) else int(float(np.dot(c["out"], dd)) < 0)
                 t = branch_or_tie(ctx, "_search_direction_perp…", swapped, impl_sw, [val], scale_of(v[:3]))
                 if t:
                     return t
@@ -974,11 +1063,15 @@ def add_steps(st, scene, calls, res, kw):
 
             def chk(r, p=p, tri=tri, c=c):
                 dist_i, cp_i = c["out"]
+                sc = scale_of(tri)
+                area = np.linalg.norm(np.cross(tri[1] - tri[0], tri[2] - tri[0]))
+                degenerate = area <= 1e-9 * sc * sc
                 if not (np.isfinite(dist_i) and np.all(np.isfinite(cp_i))):
                     ctx.branch("point_to_triangle", "divZero")
-                    return None if r.err == "divZero" else "impl non-finite, model %s" % " ".join(r.t[:3])
+                    return None if r.err == "divZero" else (
+                        "tie" if degenerate else "impl non-finite, model %s" % " ".join(r.t[:3]))
                 if not r.ok:
-                    return "model %s, impl %s" % (" ".join(r.t[:3]), dist_i)
+                    return "tie" if degenerate else "model %s, impl %s" % (" ".join(r.t[:3]), dist_i)
                 br = r.int()
                 dist = r.f()
                 cp = r.v3()
@@ -995,23 +1088,30 @@ def add_steps(st, scene, calls, res, kw):
 
             def chk(r, v=v, v1=v1, c=c):
                 pos_i = c["out"]
+                sc3 = scale_of(v) ** 3
                 if not np.all(np.isfinite(pos_i)):
                     ctx.branch("_contact_position", "divZero")
-                    return None if r.err == "divZero" else "impl non-finite, model %s" % " ".join(r.t[:3])
+                    if r.err == "divZero":
+                        return None
+                    s = h2f(r.t[2])
+                    return "tie" if abs(s - EPSF) <= 1e-9 * sc3 else "impl non-finite, model %s" % " ".join(r.t[:3])
                 if not r.ok:
-                    return "model %s, impl %s" % (" ".join(r.t[:3]), pos_i)
+                    s = h2f(r.t[2])
+                    return "tie" if abs(s - EPSF) <= 1e-9 * sc3 else "model %s, impl %s" % (" ".join(r.t[:3]), pos_i)
                 br = r.int()
                 s = r.f()
                 pos = r.v3()
                 w = [r.f() for _ in range(4)]
                 ctx.branch("_contact_position", br)
-                # conditioning: weights are ratios of 3x3 determinants
-                big = scale_of(v) ** 3 / max(abs(s), 1e-300) if br == 0 else 1.0 / max(abs(sum(w)), 1e-300)
+                if close(pos, pos_i, CORR * scale_of(v1, c["in"][2])):
+                    return None
+                # conditioning: the weights are ratios of 3x3 determinants
+                big = sc3 / max(abs(s), 1e-300)
                 amp = 1 + big * (1 + max(abs(x) for x in w))
-                if not close(pos, pos_i, (CORR + 64 * EPSF * amp) * scale_of(v1, c["in"][2])):
-                    if abs(s - EPSF) <= 1e-9 * scale_of(v) ** 3:
-                        return "tie"
-                    return "impl %s model %s (branch %d, sum %r)" % (pos_i, pos, br, s)
+                if (close(pos, pos_i, (CORR + 64 * EPSF * amp) * scale_of(v1, c["in"][2]))
+                        or abs(s - EPSF) <= 1e-9 * sc3):
+                    return "tie"
+                return "impl %s model %s (branch %d, sum %r)" % (pos_i, pos, br, s)
             st.add("C08.contact_position", eportal(v, v1, v2) + ev(d), chk, seed)
         elif fn == "_penetration_info":
             v, v1, v2 = c["in"]
@@ -1080,6 +1180,8 @@ def add_steps(st, scene, calls, res, kw):
                 if not close(d, dir_i, 1e-6):
                     return "impl (%r, %s) model (%r, %s)" % (depth_i, dir_i, depth, d)
             st.add("C08.find_info", toks, chk, seed)
+    if scene is None:
+        return
     # ---- whole run, supports answered from the trace
     sups = [c for c in calls if c["fn"] == "support_function"]
     toks = ev(c1) + ev(c2) + [f2h(tol_default), str(int(max_it)), "100000", str(len(sups))]
@@ -1116,6 +1218,62 @@ def add_steps(st, scene, calls, res, kw):
     st.add("C08.pen", toks, chk, seed)
 
 
+def direct_records(rng, n):
+    """lattice stream on the modelled functions themselves: small half-integer coordinates, repeated
+    rows, zero vectors, exact ties of every comparison — the real function is called on copies and
+    the call is recorded in the format of `Trace`"""
+    from distance3d import mpr
+    vals = [-2.0, -1.0, -0.5, 0.0, 0.0, 0.5, 1.0, 2.0]
+
+    def vec():
+        return np.array([rng.choice(vals) for _ in range(3)])
+
+    def arr():
+        a = np.array([vec() for _ in range(4)])
+        if rng.random() < 0.15:
+            a[rng.randrange(1, 4)] = a[rng.randrange(1, 4)]
+        return a
+
+    def record(name, args):
+        f = getattr(mpr, name)
+        rec = {"fn": name, "in": [_snap(a) for a in args], "children": []}
+        with np.errstate(all="ignore"):
+            out = f(*args)
+        rec["out"] = _snap(out)
+        rec["after"] = [_snap(a) for a in args]
+        return rec
+
+    recs = []
+    for _ in range(n):
+        v, v1, v2 = arr(), arr(), arr()
+        if rng.random() < 0.5:
+            v = v1 - v2
+        d = vec()
+        tol = rng.choice([1e-4, 0.5, 1.0])
+        k = rng.randrange(11)
+        if k == 0:
+            recs.append(record("_search_direction_perpendicular_to_plane_containing_v012", [v.copy(), v1.copy(), v2.copy()]))
+        elif k == 1:
+            recs.append(record("_iterate_discover_portal", [v.copy(), v1.copy(), v2.copy(), d.copy(), 3]))
+        elif k == 2:
+            recs.append(record("_portal_direction", [v.copy()]))
+        elif k == 3:
+            recs.append(record("_encapsulates_origin", [v[1].copy(), d.copy()]))
+        elif k == 4:
+            recs.append(record("_portal_reach_tolerance", [v.copy(), vec(), d.copy(), tol]))
+        elif k == 5:
+            recs.append(record("_expand_portal", [v.copy(), v1.copy(), v2.copy(), vec(), vec(), vec()]))
+        elif k in (6, 7):
+            recs.append(record("point_to_triangle", [vec() if k == 6 else np.zeros(3), np.ascontiguousarray(v[1:].copy())]))
+        elif k == 8:
+            recs.append(record("_contact_position", [v.copy(), v1.copy(), v2.copy(), d.copy()]))
+        elif k == 9:
+            recs.append(record("_penetration_info", [v.copy(), v1.copy(), v2.copy()]))
+        else:
+            recs.append(record("_find_penetration_segment", [v.copy(), v1.copy(), v2.copy()]))
+    return recs
+
+
 def gen_corr_scenes(ctx, n):
     out = []
     for i in range(n):
@@ -1138,12 +1296,19 @@ def correspondence(ctx):
             ctx.broke("correspondence", "mpr_penetration", "implementation raised %r" % e,
                       {"scene": {"a": scene["a"], "b": scene["b"]}, "kw": kw})
             continue
-        key = repr((scene["a"], scene["b"], sorted(kw.items())))
+        key = repr((clean(scene["a"]), clean(scene["b"]), sorted(kw.items())))
         ident = all(np.array_equal(np.array(s["R"]), np.eye(3)) and not np.any(np.array(s["t"])) for s in (scene["a"], scene["b"]))
         ctx.count("corr:" + scene["stream"] + ":" + scene["placement"], key=key, nontrivial=not ident,
                   sample={"a": scene["a"]["type"], "b": scene["b"]["type"], "placement": scene["placement"],
                           "calls": len(calls)})
         add_steps(st, scene, calls, res, kw)
+        if len(st.plan) > 6000:
+            st.finish()
+    st.finish()
+    # lattice stream on the functions themselves (one group per record so that ties stay local)
+    for rec in direct_records(ctx.rng, ctx.budget(1500, 30000)):
+        ctx.count("direct:" + rec["fn"], key=repr(rec["in"]))
+        add_steps(st, None, [rec], None, {})
         if len(st.plan) > 6000:
             st.finish()
     st.finish()
@@ -1153,3 +1318,245 @@ def correspondence(ctx):
 
 def corpus_scenes():
     return []
+
+
+# =============================================================================== failing-input search
+F_SEG = "F-mpr-segment-contact"
+F_TIE = "F-mpr-expand-tie-contact"
+
+
+def segment_class(sa, sb):
+    """Is this scene in the class 'origin on the ray v0 -> v1' (exit ORIGIN_ON_V0V1_SEGMENT)?
+    Recomputed from the scene with own support mappings: coincident centres, or the first
+    support point of A (-) B collinear with the centre difference."""
+    v0 = lib_center(sa) - lib_center(sb)
+    if np.all(v0 == 0):
+        v0 = np.array([10 * EPSF, 0.0, 0.0])
+    d = unit(-v0)
+    v1 = sup(sa, d) - sup(sb, -d)
+    c = np.cross(v0, v1)
+    # the code's test is |v0 x v1|^2 < EPSILON; allow for the rounding of the support points
+    return bool(c.dot(c) < EPSF + 1e-9 * float(v0.dot(v0) * v1.dot(v1))) and bool(np.any(v1 != 0))
+
+
+def has_expand_tie(calls):
+    """does the recorded run contain an `_expand_portal` decision on an exactly-zero dot product
+    (the origin ray passes exactly through a vertex / an edge of the portal)?"""
+    for c in calls:
+        if c["fn"] == "_expand_portal":
+            v, v4 = c["in"][0], c["in"][3]
+            x = np.cross(v4, v[0])
+            d1, d2, d3 = float(v[1].dot(x)), float(v[2].dot(x)), float(v[3].dot(x))
+            used = [d1, d2] if d1 > 0 else [d1, d3]
+            if min(abs(u) for u in used) <= 1e-13 * scale_of(v) ** 3:
+                return True
+    return False
+
+
+def finding_of(scene, what, observed, info):
+    """attach a known-finding id only to the exact class the finding describes"""
+    if what != "contact position outside a collider":
+        return None
+    L, t = info["L"], info.get("depth", 0.0)
+    worst = max(observed["dist_to_1_at_least"], observed["dist_to_2_at_least"])
+    if segment_class(scene["a"], scene["b"]) and worst <= 0.5 * t + TOLK * L:
+        return F_SEG
+    # tie class: read off the real run (not the model): an exact tie in _expand_portal and the
+    # origin outside the portal tetrahedron (a negative barycentric weight in the main branch)
+    try:
+        _, calls = traced_mpr(scene["a"], scene["b"], **(info.get("kw") or {}))
+    except Exception:  # noqa
+        return None
+    if classify(calls)["contact"] == "main-negative-weight" and has_expand_tie(calls):
+        return F_TIE
+    return None
+
+
+def report(ctx, scene, kw, bad, info):
+    sc = {"a": clean(scene["a"]), "b": clean(scene["b"])}
+    for what, observed, expected in bad:
+        ctx.fail("mpr.mpr_penetration: " + what,
+                 {"scene": sc, "kw": kw, "placement": scene.get("placement"), "stream": scene.get("stream")},
+                 {"violation": observed, "result": {k: info.get(k) for k in ("intersection", "depth", "direction", "position")},
+                  "L": info.get("L")},
+                 expected, "rigorous bounds of the penetration depth of A (-) B (inner polytope / support values), "
+                 "translate-and-requery, separating-plane certificate for the contact position",
+                 finding=finding_of(scene, what, observed, info))
+
+
+def minimise(scene, what):
+    """cheap shrinking: move collider 1 to the origin, round the numbers, drop rotations — keep a
+    step only if the same kind of violation persists"""
+    def still(sc):
+        try:
+            bad, _ = check_scene(sc)
+        except Exception:  # noqa
+            return False
+        return any(w == what for w, _, _ in bad)
+
+    cur = {"a": clean(scene["a"]), "b": clean(scene["b"])}
+    shift = -np.array(cur["a"]["t"])
+    cand = {"a": translated(cur["a"], shift), "b": translated(cur["b"], shift)}
+    if still(cand):
+        cur = cand
+    for digits in (2, 3, 5):
+        def rnd(x):
+            if isinstance(x, float):
+                return float("%.*g" % (digits, x))
+            if isinstance(x, list):
+                return [rnd(y) for y in x]
+            return x
+        cand = {k: {kk: (rnd(vv) if kk not in ("R", "triangles", "type") else vv) for kk, vv in cur[k].items()}
+                for k in ("a", "b")}
+        if still(cand):
+            cur = cand
+            break
+    for k in ("a", "b"):
+        if cur[k]["type"] not in ("hull", "sphere"):
+            cand = dict(cur)
+            cand[k] = dict(cur[k], R=np.eye(3).tolist())
+            if still(cand):
+                cur = cand
+    return cur
+
+
+def oracle_selftest(ctx):
+    """the depth oracle against closed forms (sphere-sphere, sphere-box face contact, axis-aligned
+    boxes); a failure here is a defect of the harness, not of /repo -> infrastructure error"""
+    I = np.eye(3).tolist()
+    cases = []
+    for _ in range(12):
+        r1, r2 = ctx.rng.uniform(0.1, 3), ctx.rng.uniform(0.1, 3)
+        d = ctx.rng.uniform(0.0, 1.2) * (r1 + r2)
+        n = rand_unit(ctx.rng)
+        cases.append(({"type": "sphere", "R": I, "t": [0.0, 0.0, 0.0], "radius": r1},
+                      {"type": "sphere", "R": I, "t": (n * d).tolist(), "radius": r2}, r1 + r2 - d))
+        s1 = [ctx.rng.choice([0.5, 1.0, 2.0]) for _ in range(3)]
+        s2 = [ctx.rng.choice([0.5, 1.0, 2.0]) for _ in range(3)]
+        off = [ctx.rng.choice([-0.75, -0.25, 0.0, 0.5, 1.0]) for _ in range(3)]
+        ov = [0.5 * (s1[k] + s2[k]) - abs(off[k]) for k in range(3)]
+        cases.append(({"type": "box", "R": I, "t": [0.0, 0.0, 0.0], "size": s1},
+                      {"type": "box", "R": I, "t": off, "size": s2}, min(ov)))
+        h = ctx.rng.uniform(0.2, 2.0)
+        pen = ctx.rng.uniform(0.0, min(r1, 0.5 * h))
+        cases.append(({"type": "sphere", "R": I, "t": [0.0, 0.0, 0.5 * h + r1 - pen], "radius": r1},
+                      {"type": "box", "R": I, "t": [0.0, 0.0, 0.0], "size": [8 * r1 + 1, 8 * r1 + 1, h]}, pen))
+    for a, b, closed in cases:
+        bd = depth_bounds(a, b, 1e-6)
+        if closed < 0:
+            good = bd["sep"] > 0 and bd["sep"] <= -closed + 1e-9
+        else:
+            good = bd["lb"] - 1e-9 <= closed <= bd["ub"] + 1e-9 and bd["sep"] == 0
+        if not good:
+            raise core.Infra("depth oracle self-test failed: %r %r closed form %r bounds %r" % (a, b, closed, bd))
+    # sign convention: direction points from collider 1 to collider 2
+    res = run_mpr({"type": "sphere", "R": I, "t": [0.0, 0.0, 0.0], "radius": 1.0},
+                  {"type": "sphere", "R": I, "t": [1.5, 0.25, 0.0], "radius": 1.0})
+    ctx.extra["sign_convention_probe"] = [bool(res[0]), float(res[1]), [float(x) for x in res[2]]]
+    ctx.extra["oracle_selftest_cases"] = len(cases)
+
+
+def search(ctx):
+    oracle_selftest(ctx)
+    boost = 3 if ctx.extra.get("search_boost") else 1
+    n = ctx.budget(2600, 60000) * boost
+    pairs = [(a, b) for a in TYPES for b in TYPES]
+    ctx.rng.shuffle(pairs)
+    stats = {"intersections": 0, "misses": 0, "violations": 0, "missed_overlap": 0}
+    minimised = 0
+    for scene in known_witness_scenes():
+        bad, info = check_scene(scene)
+        ctx.count("search:witness", key=repr((clean(scene["a"]), clean(scene["b"]))))
+        report(ctx, scene, {}, bad, info)
+    for i in range(n):
+        kinds = pairs[i % len(pairs)]
+        placement = PLACEMENTS[(i // len(pairs)) % len(PLACEMENTS)]
+        stream = "L" if ctx.rng.random() < 0.4 else "G"
+        if ctx.rng.random() < 0.04:
+            scene = gen_edge_scene(ctx.rng)
+        else:
+            scene = gen_scene(ctx.rng, stream, kinds, placement)
+        bad, info = check_scene(scene)
+        ident = all(np.array_equal(np.array(s["R"]), np.eye(3)) and not np.any(np.array(s["t"]))
+                    for s in (scene["a"], scene["b"]))
+        ctx.count("search:%s:%s" % (scene["stream"], scene["placement"]), key=repr((clean(scene["a"]), clean(scene["b"]))),
+                  nontrivial=not ident)
+        ctx.branch("pair", "%s/%s" % (scene["a"]["type"], scene["b"]["type"]))
+        stats["intersections" if info.get("intersection") else "misses"] += 1
+        stats["missed_overlap"] += int(bool(info.get("missed_overlap")))
+        if bad:
+            stats["violations"] += 1
+            new = [b for b in bad if finding_of(scene, b[0], b[1], info) is None]
+            if new and minimised < 3:
+                minimised += 1
+                small = minimise(scene, new[0][0])
+                bad2, info2 = check_scene(small)
+                if any(w == new[0][0] for w, _, _ in bad2):
+                    small.update({"placement": scene["placement"], "stream": scene["stream"] + "-minimised"})
+                    report(ctx, small, {}, [b for b in bad2 if b[0] == new[0][0]], info2)
+            report(ctx, scene, {}, bad, info)
+    ctx.extra["search_stats"] = stats
+
+
+def gen_edge_scene(rng):
+    """degenerate placements: coplanar flat shapes, stacked boxes sharing a face / edge / vertex,
+    a shape and its copy shifted along an axis by exactly its width"""
+    kind = rng.choice(["coplanar", "stack", "shifted-copy"])
+    S = rng.choice([0.5, 1.0, 2.0, 8.0])
+    if kind == "coplanar":
+        a = gen_shape(rng, rng.choice(FLAT), S, True)
+        b = gen_shape(rng, rng.choice(FLAT), S, True)
+        b = translated(b, [rng.choice([0.0, 0.25, 0.5]) * S, rng.choice([0.0, 0.125]) * S, 0.0])
+    elif kind == "stack":
+        a = gen_shape(rng, "box", S, True)
+        b = gen_shape(rng, "box", S, True)
+        off = [0.5 * (a["size"][i] + b["size"][i]) * rng.choice([0, 0, 1, -1]) for i in range(3)]
+        if not any(off):
+            off[rng.randrange(3)] = 0.5 * (a["size"][0] + b["size"][0])
+        b = translated(b, off)
+    else:
+        a = gen_shape(rng, rng.choice(TYPES), S, True)
+        b = {k: (list(v) if isinstance(v, list) else v) for k, v in a.items()}
+        ax = np.zeros(3)
+        ax[rng.randrange(3)] = 1.0
+        w = float((sup(a, ax) - sup(a, -ax)).dot(ax))
+        b = translated(b, ax * w * rng.choice([1.0, 0.5, 0.0]))
+    off = np.array([rng.choice([0.0, 4.0, -64.0]) for _ in range(3)])
+    return {"a": clean(translated(a, off)), "b": clean(translated(b, off)), "placement": "edge-" + kind,
+            "stream": "E", "n": [0.0, 0.0, 0.0], "target": None}
+
+
+def known_witness_scenes():
+    import json
+    import os
+    path = os.path.join(core.VERIF, "known_findings.d", "C08.json")
+    out = []
+    if os.path.exists(path):
+        for k in json.load(open(path)):
+            for key in ("witness", "witness2"):
+                w = k.get(key, {})
+                if "a" in w and "b" in w:
+                    out.append({"a": w["a"], "b": w["b"], "placement": "witness:" + k["id"], "stream": "W"})
+    return out
+
+
+def replay(ctx, payload):
+    args = payload.get("args") or {}
+    scene = args.get("scene")
+    kw = args.get("kw") or {}
+    if scene is None:
+        for b in payload.get("broken", []):
+            si = b.get("seed_input") or {}
+            if "scene" in si:
+                scene, kw = si["scene"], si.get("kw") or {}
+                break
+    if scene is None:
+        print("replay file names no input:", str(payload.get("broken"))[:500])
+        return False
+    bad, info = check_scene(scene, kw=kw)
+    print("result:", {k: info.get(k) for k in ("intersection", "depth", "direction", "position")}, "L =", info.get("L"))
+    print("true depth in", [info.get("bounds", {}).get("lb"), info.get("bounds", {}).get("ub")],
+          "proven gap", info.get("bounds", {}).get("sep"))
+    for what, observed, expected in bad:
+        print("FAIL", what, observed, "expected", expected)
+    return not bad
